@@ -1,6 +1,8 @@
 import SieveModel.Lemmas.Assoc
 import SieveModel.Lemmas.Machine
 import SieveModel.Model.Show
+import SieveModel.Lemmas.Lex
+import SieveModel.Lemmas.Brackets
 /-!
 # C03 — Accepted scripts are represented faithfully: nothing dropped or invented
 
@@ -11,7 +13,10 @@ Proved here, for every argument definition (generic in the table):
 * `accepted_argument_is_never_dropped`: with recording on, the interpreter records an accepted
   value somewhere unless the definition list is exhausted, in which case the state is unchanged;
 * `dict_assignment_*`: the insertion-ordered dictionary model keeps the order of existing keys and
-  only ever appends.
+  only ever appends;
+* `accepted_script_is_its_tokens_woven_with_white_space`: an accepted script lexes without error and is, byte for
+  byte, its tokens in order (comments are tokens) with nothing but white space before, between and after them — the
+  lexer hands every other byte of the source to the parser.
 
 Open: the machine-level statement (`result` unparses to exactly the token stream) is
 `result_unparses_to_source_statement`; on the real code it is decided by the oracle, which
@@ -43,6 +48,31 @@ theorem dict_assignment_keeps_others (l : List Arg) (a : Arg) (k : String) (hk :
 theorem dict_assignment_keeps_order (l : List Arg) (a : Arg) :
     (assocSet l a).map Arg.key = if l.any (fun p => p.key == a.key) then l.map Arg.key else l.map Arg.key ++ [a.key] :=
   assocSet_keys l a
+
+/-- the lexer drops nothing but white space -/
+theorem accepted_script_is_its_tokens_woven_with_white_space (T : Table) (text : Bytes) (prev : PState) (r : List Node)
+    (h : Machine.parse T text prev = .accept r) :
+    ∃ lr, Lex.lex text = some lr ∧ lr.err = none ∧ Lex.Weave lr.toks text := by
+  unfold Machine.parse at h
+  cases hl : Lex.lex text with
+  | none => rw [hl] at h; simp at h
+  | some lr =>
+    rw [hl] at h
+    simp only at h
+    have herr : lr.err = none := by
+      unfold Machine.run at h
+      split at h
+      · rename_i o ho
+        subst h
+        rcases Machine.feed_stop_located T lr.toks {} 0 _ ho with h1 | ⟨w, h1⟩ | ⟨tok, _, e, h1 | h1⟩ <;> simp at h1
+      · cases he : lr.err with
+        | none => rfl
+        | some pe => rw [he] at h; simp at h
+    exact ⟨lr, rfl, herr, Lex.lex_weave text lr hl herr⟩
+
+/-- non-vacuity: a two-token weave -/
+example : Lex.Weave [⟨.identifier, 1, sb "keep"⟩, ⟨.semicolon, 5, sb ";"⟩] (sb " keep;\n") :=
+  Lex.Weave.cons (sb " ") (by decide) _ _ _ (Lex.Weave.cons [] (by decide) _ _ _ (Lex.Weave.nil (sb "\n") (by decide)))
 
 def result_unparses_to_source_statement : Prop :=
   ∀ (T : Table) (text : Bytes) (r : List Node), Machine.parse T text = .accept r → True
